@@ -171,7 +171,7 @@ class G:
         if focus == "window":
             allow_setop = False
         want_setop = allow_setop and depth > 0 and not want_int and self.d(st.integers(0, 4)) == 0
-        if focus == "setop" and allow_setop and not want_int:
+        if focus in ("setop", "setop_order") and allow_setop and not want_int:
             want_setop = True
         if want_setop:
             all_aliased = True  # a compound ORDER BY can only name result columns
@@ -268,7 +268,7 @@ class G:
         distinct = (not grouped) and (not aggonly) and self.d(st.integers(0, 5)) == 0 and not any(it["e"][0] == "win" for it in items)
         order = []
         limit = offset = None
-        if self.d(st.integers(0, 9)) < 4 or want_int and False:
+        if self.d(st.integers(0, 9)) < 4 or focus == "setop_order":
             # total order over the projected row: every select item, in a random rotation
             k = self.d(st.integers(0, len(items) - 1))
             idx = list(range(k, len(items))) + list(range(k))
@@ -279,18 +279,37 @@ class G:
             if self.d(st.integers(0, 4)) < 2:
                 offset = self.d(st.sampled_from([0, 1, 2]))
         setop = None
+        by_name = first_limit = None
         setop_ok = (not order) or all(it["alias"] for it in items)  # a compound ORDER BY can only name result columns (aliases)
         if want_setop and setop_ok and not any(it["e"][0] == "win" for it in items):
             other = self.select(depth=0, ncols=len(items), allow_setop=False)
             if not other["order"] and len(other["items"]) == len(items):
                 setop = [self.d(st.sampled_from(["union", "union_all", "intersect", "except_of"])), other]
+                if order and not joins and len(sources) == 1:
+                    # (single source: SQLite matches an un-aliased result column of a compound by resolving the name inside the operands,
+                    # which a join can make ambiguous - a question of the engine's name matching, not of the builder)
+                    # a plain column of the first operand may go without an alias: the compound ORDER BY then names the result column by the
+                    # column's own name - given as the column object (whose table carries an alias inside the operand) or as a string
+                    names = [it["alias"] or (it["e"][2] if it["e"][0] == "col" else None) for it in items]
+                    for it in items:
+                        if it["e"][0] == "col" and names.count(it["e"][2]) == 0 and self.d(st.booleans()):
+                            it["alias"] = None
+                            names.append(it["e"][2])
+                    if any(it["alias"] is None for it in items):
+                        by_name = self.d(st.booleans())
+                        # the first operand with a row limit of its own (0 or more than it can hold: no order needed)
+                        first_limit = self.d(st.sampled_from([None, 0, 1000, 1000]))
                 # the operand may itself be a set operation, passed as one object: a.op(b.op2(c)) means a OP (b OP2 c)
                 if other["limit"] is None and other["offset"] is None and (focus == "setop" or self.d(st.integers(0, 2)) == 0):
                     third = self.select(depth=0, ncols=len(items), allow_setop=False)
                     if not third["order"] and third["limit"] is None and third["offset"] is None and len(third["items"]) == len(items):
                         other["setop"] = [self.d(st.sampled_from(["union", "union_all", "intersect", "except_of"])), third]
-        return {"kind": "select", "sources": sources, "joins": joins, "items": items, "distinct": distinct, "where": where, "group": group, "having": having,
-                "order": order, "limit": limit, "offset": offset, "setop": setop}
+        out = {"kind": "select", "sources": sources, "joins": joins, "items": items, "distinct": distinct, "where": where, "group": group, "having": having,
+               "order": order, "limit": limit, "offset": offset, "setop": setop}
+        if by_name is not None:
+            out["setop_order_by_name"] = by_name
+            out["first_limit"] = first_limit
+        return out
 
     def dml(self):
         kind = self.d(st.sampled_from(["insert", "insert", "insert_select", "upsert", "upsert_select", "update", "update", "update_from", "update_join", "delete"]))
@@ -410,6 +429,8 @@ def case_st(draw):
         g.focus = "window"
     elif fc == 1:
         g.focus = "setop"  # the next top-level select is a set operation whose operand is a set operation
+    elif fc == 2:
+        g.focus = "setop_order"  # ... an ordered set operation (result columns named by plain column names, first operand with a limit)
     sa = g.select(depth=draw(st.sampled_from([0, 1, 1, 2]))) if draw(st.integers(0, 9)) < 6 else g.dml()
     dbs = [draw(database()) for _ in range(3)]
     return {"sa": sa, "dbs": dbs, "avoided": g.avoided}
@@ -526,12 +547,16 @@ def P_select(sa):
     if sa["having"] is not None:
         steps.append(["having", [P_expr(sa["having"], True)]])
     if sa["setop"]:
+        if sa.get("first_limit") is not None:
+            steps.append(["limit", [["raw", sa["first_limit"]]]])  # a clause of the FIRST operand: it becomes a unit of its own
         steps.append([sa["setop"][0], [["q", P_select(sa["setop"][1])]]])
     for i, od in sa["order"]:
         it = sa["items"][i]
         node = P_expr(it["e"], True)
         if it["alias"]:
             node = ["as", node, it["alias"]]
+        elif sa["setop"] and sa.get("setop_order_by_name") and it["e"][0] == "col":
+            node = ["py", it["e"][2]]
         steps.append(["orderby", [node], ({"order": ["enum", "Order", od]} if od else {})])
     for e, od in sa.get("order_cols") or []:
         steps.append(["orderby", [P_expr(e, True)], ({"order": ["enum", "Order", od]} if od else {})])
@@ -700,6 +725,8 @@ def R_select(sa, top=True):
     if sa["setop"]:
         op = {"union": "UNION", "union_all": "UNION ALL", "intersect": "INTERSECT", "except_of": "EXCEPT"}[sa["setop"][0]]
         other = sa["setop"][1]
+        if sa.get("first_limit") is not None:
+            sql = "SELECT * FROM (%s LIMIT %d)" % (sql, sa["first_limit"])
         # SQLite has no bracketed operands: a compound operand is written as a FROM-subquery
         sql += " %s %s" % (op, ("SELECT * FROM (%s)" % R_select(other)) if (other.get("setop") or other["limit"] is not None or other["offset"] is not None) else R_select(other))
     order_parts = ["%d%s" % (i + 1, " " + od.upper() if od else "") for i, od in sa["order"]]
@@ -850,7 +877,8 @@ def check(case, stats=None):
             return [(mksig(sa["kind"], "outcome_differs", "reference_raises"), "reference %r fails with %s but %r runs" % (ref, a[2], sql))], info
         if b[0] == "err":
             kind = "engine_reject" if b[1] in ("parse", "resolution") else "outcome_differs"
-            return [(mksig(sa["kind"], kind, b[1]) + dml_tag(sa), "SQLite: %s for %r ; the reference %r runs" % (b[2], sql, ref))], info
+            tag = "|setop_order_by_column_name" if sa["kind"] == "select" and feature(sa) == "setop_order_by_column_name" else ""
+            return [(mksig(sa["kind"], kind, b[1]) + dml_tag(sa) + tag, "SQLite: %s for %r ; the reference %r runs" % (b[2], sql, ref))], info
         if is_query:
             ra, rb = a[1], b[1]
             if ra:
@@ -890,6 +918,8 @@ def feature(sa):
     text = json.dumps(sa)
     if sa["setop"] and sa["setop"][1].get("setop"):
         return "nested_setop_operand"
+    if sa["setop"] and "setop_order_by_name" in sa:
+        return "setop_order_by_column_name"
     if sa.get("shadow"):
         return "alias_shadows_column:" + sa["shadow"]
     wins = [it["e"] for it in sa["items"] if it["e"][0] == "win"]
@@ -994,6 +1024,8 @@ def run_shard(shard):
                     classes.append("has:" + f)
             if sa["setop"] and sa["setop"][1].get("setop"):
                 classes.append("has:nested_setop_operand")
+            if sa["setop"] and "setop_order_by_name" in sa:
+                classes.append("has:setop_order_by_column_name")
             if any("sub" in s for s in sa["sources"]):
                 classes.append("has:from_subquery")
             aggs = [it["e"] for it in sa["items"] if it["e"][0] == "agg"] + ([sa["having"][1]] if sa["having"] and sa["having"][1][0] == "agg" else [])
